@@ -37,6 +37,7 @@ TABLES = [
     {"F": [1.5, None, 0.25, 5.0], "I": [2, 0, -1, 5], "G": [0.5, 2.0, -2.0, None]},
     {"F": [None, 3.0, None, -1.0], "I": [1, 1, 2, 2], "G": [0.25, 0.25, 4.0, -0.5]},
     {"F": [0.0, 1.0, 2.0, 3.0], "I": [5, -2, 0, 1], "G": [-1.5, 0.0, 0.0, 2.0]},
+    {"F": [2.0, None, 2.0, 2.0], "I": [3, 3, 3, 3], "G": [0.5, None, 0.5, 1.0]},  # constant columns: degenerate statistics
 ]
 DISCONT = ("CvtToBinary", "NormalizeCat", "CvtToFuzzyCat", "NormalizeMeanToMid", "CvtToFuzzyMeanToMid")
 
@@ -160,6 +161,12 @@ def cases(tier):
                 continue
             for pi in range(len(D.presets_small(cmd, 2))):
                 yield ("k1", cmd, pi, ti)
+    # degenerate table (constant columns) for two-command models: first preset, the second command consumes the first and a base column
+    for cmd in SIG.DATA_COMMANDS:
+        if SIG.input_fuzz(cmd) != "fz":
+            for ins in (("I",), ("F",), ("I", "F"), ("G", "I")):
+                if ins in [tuple(b) for b in _bindings(cmd, base)]:
+                    yield ("k2", cmd, 0, list(ins), 3, "quick")
     for cmd in SIG.DATA_COMMANDS:
         if SIG.input_fuzz(cmd) == "fz":
             continue
@@ -273,11 +280,6 @@ def _check_model(cmds, table, work, all_perms, viols, outcomes, counters, tagbas
                             for kind, msg in D.compare(a, ref[1], True, shape):
                                 viols.append(V("C02:%s:%s" % (c, kind), "result %s of [%s]: %s" % (n, desc, msg), **tag))
                                 break
-                        for n in ("F", "I", "G"):
-                            want = env[n][1]
-                            for kind, msg in D.compare(res[1][n], want, False, (len(want),)):
-                                viols.append(V("C02:EEMSRead:%s" % kind, "column %s: %s" % (n, msg), **tag))
-                                break
                 else:
                     counters["unspecified"] += 1
                     kinds = sorted({env[n][0] for n, _, _, _ in cmds if env[n][0] != "ok"})
@@ -289,6 +291,13 @@ def _check_model(cmds, table, work, all_perms, viols, outcomes, counters, tagbas
                     what = "metadata" if meta else "file order %r" % (order,)
                     viols.append(V("C02:order-dependence:%s" % ("metadata" if meta else "file-order"), "model [%s]: %s changes the outcome: %s vs %s" % (
                         desc, what, _brief(sig), _brief(base_sig)), **tag))
+            if res[0] == "ok":
+                # whatever else the model does, the columns that were read must still be what the file says after the run
+                for n in ("F", "I", "G"):
+                    want = env[n][1]
+                    for kind, msg in D.compare(res[1][n], want, False, (len(want),)):
+                        viols.append(V("C02:EEMSRead:%s-after-run" % kind, "column %s after running [%s]: %s" % (n, desc, msg), **tag))
+                        break
             k = "%s:%s" % (cmds[-1][1], res[0] if res[0] == "ok" else res[1])
             outcomes[k] = outcomes.get(k, 0) + 1
     return runs
